@@ -67,7 +67,8 @@ Lemma non_negative_parafac_hals_inv_sub (D : nat -> Prop) utm utu solve inner st
   (forall m, D m -> In m nn) -> cp_inv D st ->
   cp_inv D (non_negative_parafac_hals Rops nrm utm utu solve inner stop nn sps nm modes n st).
 Proof.
-  intros HD H. unfold non_negative_parafac_hals. apply outer_loop_inv; auto.
+  intros HD H. unfold non_negative_parafac_hals. destruct modes as [|m0 modes']; auto. set (modes := m0 :: modes').
+  apply outer_loop_inv; auto.
   - intros it s Hs. apply fold_left_inv; auto. intros; apply cp_hals_mode_inv_sub; auto.
   - intros; apply cp_fin_inv; auto.
   - intros; apply cp_fin_inv; auto.
